@@ -2,10 +2,12 @@
 
 package compactindexsized
 
+import "os"
+
 // C04.stride — for EVERY value size the constructor accepts (symbolic 64-bit valueSizeBytes)
 // and declared item counts on both sides of the bucket-count boundaries: the entry stride is
 // 3+valueSize without 8-bit wrap-around, builder (getEntryStride, OffsetWidth) and reader
-// (DB.entryStride, GetBucket's OffsetWidth) agree, every temp bucket got the value size, and
+// (DB.GetBucket: Stride, OffsetWidth) agree, every temp bucket got the value size, and
 // the number of buckets is ceil(numItems/10000). Sizes 0 and > 255 must be rejected.
 func VerifC04Stride() {
 	items := []uint{1, 9999, 10000, 10001, 20000, 20001, 60000}
@@ -28,10 +30,19 @@ func VerifC04Stride() {
 	}
 	verifKnownFinding("C04-S3-stride-wrap", vs > 252)
 	verifAssert(uint64(b.getEntryStride()) == 3+vs, "C04.stride: builder entry stride wraps around 8 bits (accepted value size > 252)")
-	db := &DB{Header: &Header{ValueSize: vs, NumBuckets: b.Header.NumBuckets}}
-	verifAssert(db.entryStride() == b.getEntryStride(), "C04.stride: reader and builder disagree on the entry stride")
-	verifAssert(uint64(db.entryStride()) == 3+vs, "C04.stride: reader entry stride wraps around")
-	verifAssert(uint64(uint8(db.GetValueSize())) == vs && uint64(uint8(b.getValueSize())) == vs, "C04.stride: offset width truncated")
+	// reader side through the public DB.GetBucket over a file holding one (empty) bucket header
+	raw := make([]byte, bucketHdrLen)
+	raw[8] = HashSize // BucketHeader.HashLen
+	path := verifTempPath("stride.idx")
+	verifMemFile(path, raw)
+	f, err := os.Open(path)
+	verifAssert(err == nil, "C04.stride: open")
+	db := &DB{Header: &Header{ValueSize: vs, NumBuckets: b.Header.NumBuckets}, Stream: f}
+	bkt, err := db.GetBucket(0)
+	verifAssert(err == nil, "C04.stride: the reader refuses a value size the builder accepts")
+	verifAssert(bkt.Stride == b.getEntryStride(), "C04.stride: reader and builder disagree on the entry stride")
+	verifAssert(uint64(bkt.Stride) == 3+vs, "C04.stride: reader entry stride wraps around")
+	verifAssert(uint64(bkt.OffsetWidth) == vs && uint64(uint8(db.GetValueSize())) == vs && uint64(uint8(b.getValueSize())) == vs, "C04.stride: offset width truncated")
 	verifAssert(b.Close() == nil, "C04.stride: Close")
 	verifReach("accepted")
 	verifReach("end")
